@@ -85,6 +85,17 @@ theorem sim_afterConnect (proxy : Bool) (e₁ e₂ : List EnvStep) (s : Sys) (hp
     exact ⟨runLoopWith e₁ s5, ei_runLoopWith e₁ s5 e₁, by
       rw [ei_runLoopWith e₂ s5 e₂, runLoopWith_congr (h s5 I5)]⟩
 
+/-- the selector's constructor raised: the script is never looked at -/
+theorem ei_afterConnectNoSel (proxy : Bool) : EnvInd (afterConnectNoSel proxy) := by
+  unfold afterConnectNoSel
+  refine ei_bind (ei_modS (fun _ _ => rfl)) (fun _ => ei_getS_bind (fun _ _ => rfl) (fun s =>
+    ei_bind (ei_write _ _) (fun r => ?_)))
+  split
+  · exact ei_bind ei_closeSocket (fun _ => ei_yieldEv _)
+  · refine ei_bind (ei_yieldConnected proxy) (fun _ => ei_bind (ei_modS (fun _ _ => rfl)) (fun _ => ?_))
+    unfold runLoopNoSel
+    exact ei_tryC (ei_bind (ei_onLoopEnd _) (fun _ => ei_selClose)) ei_runFinally
+
 theorem sim_run (e₁ e₂ : List EnvStep) (s : Sys) (hp : 0 < s.cfg.poll)
     (hn : NoSessionClose s.react) (hi : HdrInv s)
     (h : ∀ s', Inv s' → loop e₁ s' = loop e₂ s') :
@@ -101,6 +112,7 @@ theorem sim_run (e₁ e₂ : List EnvStep) (s : Sys) (hp : 0 < s.cfg.poll)
   | ok proxy =>
     exact sim_afterConnect proxy e₁ e₂ s1 (by rw [k1.cfg]; exact hp) (by rw [k1.react]; exact hn)
       (hdrInv_of_p k1.p hi) h
+  | selFail proxy => exact sim_of_ei (ei_afterConnectNoSel proxy) s1 e₁ e₂
 
 /-- what `runAll` makes of the result of `run()` -/
 def finish (r : Res Unit) : Sys :=
